@@ -613,13 +613,16 @@ pub const HANG_TICKS: u64 = 30;
 pub struct Ctx {
     pub ctx: RitiContext,
     pub opts: Opts,
+    /// the options the context was created with (`opts` follows update-engine events)
+    pub created: Opts,
     pub with_pre: bool,
     pub journal: Arc<Mutex<Journal>>,
 }
 
 impl Ctx {
     /// `RitiContext::new_with_config` under catch_unwind.
-    pub fn new(opts: &Opts) -> Result<Ctx, Panic> {
+    /// the real context for `opts` (`new_with_config`, or - `via_update` - created with every option inverted and re-configured)
+    fn make(opts: &Opts) -> Result<RitiContext, Panic> {
         let cfg = opts.to_config();
         let ctx = if opts.via_update {
             let mut inv = opts.clone();
@@ -636,6 +639,10 @@ impl Ctx {
         } else {
             guard(|| RitiContext::new_with_config(&cfg))?
         };
+        Ok(ctx)
+    }
+    pub fn new(opts: &Opts) -> Result<Ctx, Panic> {
+        let ctx = Ctx::make(opts)?;
         let journal = Arc::new(Mutex::new(Journal {
             opts: opts.clone(),
             origin: None,
@@ -648,7 +655,7 @@ impl Ctx {
             reg.retain(|w| w.strong_count() > 0);
             reg.push(Arc::downgrade(&journal));
         }
-        Ok(Ctx { ctx, opts: opts.clone(), with_pre: true, journal })
+        Ok(Ctx { ctx, opts: opts.clone(), created: opts.clone(), with_pre: true, journal })
     }
 
     pub fn apply(&mut self, ev: &Ev) -> Result<Out, Fail> {
@@ -752,6 +759,13 @@ impl Ctx {
             let mut j = self.journal.lock().unwrap();
             j.since.clear();
             j.origin = None;
+        }
+        if self.opts != self.created {
+            // a history re-configured the context: start again from a context created with the original options
+            self.ctx = Ctx::make(&self.created)?;
+            self.opts = self.created.clone();
+            self.journal.lock().unwrap().opts = self.created.clone();
+            return Ok(());
         }
         guard(|| self.ctx.verif_reset_method())
     }
